@@ -230,12 +230,17 @@ def s_save_bounded(ctx):
             t.fields.update(name=f"t{j}", dtype=Opaque("dtype"), shape=Opaque("shape"))
         v.fields.update(name=f"w{j}", const_value=t)
         vals.append(v)
+    # an initializer may ALSO be a graph input (a default the caller may override): still an initializer that must carry data
+    also_input = [ctx.choose(2, f"init{j} is also a graph input") == 1 for j in range(k)]
+    x_in = SObj(ir.Value, "x")
+    x_in.fields.update(name="x", const_value=None)
 
     class Inits(dict):
         pass
     inits = Inits((f"w{j}", v) for j, v in enumerate(vals))
     graph = SObj(ir.Graph, "graph", lazy=_forbid("model.graph"))
     graph.fields["initializers"] = inits
+    graph.fields["inputs"] = [x_in] + [v for v, gi in zip(vals, also_input) if gi]
     model = SObj(ir.Model, "model", lazy=_forbid("model"))
     model.fields["graph"] = graph
     snapshot = [(v, dict(v.fields)) for v in vals] + [(graph, dict(graph.fields)), (model, dict(model.fields))]
@@ -284,5 +289,5 @@ SCENARIOS = [
              assumptions=["model_path is a str with a non-empty last component; os.PathLike arguments not modelled"]),
     Scenario("C20.save_model_with_external_data[bounded, failing save]", s_save_bounded,
              [(REL, "save_model_with_external_data")], kind="bounded",
-             bound="at most 2 initializers, each uninitialized / in-memory / already external; ir.save succeeds or raises OSError"),
+             bound="at most 2 initializers, each uninitialized / in-memory / already external and possibly also a graph input; ir.save succeeds or raises OSError"),
 ]
